@@ -55,7 +55,11 @@ ES = ["local v = HOLE", "local a, b = 1, HOLE", "v = HOLE", "t.f = HOLE", "t[HOL
       "for i = 1, 2, HOLE do end", "for k, v in HOLE do end", "for k in f, HOLE do end", "return HOLE",
       "local v: typeof(HOLE) = 1", "type T = typeof(HOLE)", "for k: typeof(HOLE), v in pairs(t) do end",
       "for k, v: typeof(HOLE) in pairs(t) do end", "for i: typeof(HOLE) = 1, 2 do end",
-      "local function g(a: typeof(HOLE)): typeof(HOLE) end", "function t.f(a: typeof(HOLE), ...: typeof(HOLE)) end", "function t.f(a) return HOLE end",
+      "local function g(a: typeof(HOLE)): typeof(HOLE) end", "function t.f(a: typeof(HOLE), ...: typeof(HOLE)) end",
+      "local v = 1, HOLE", "local a, b = 1, 2, HOLE", "a, b = 1, 2, HOLE", "local v = nil, function() return HOLE end",
+      "local function g(...: number): typeof(HOLE) end", "local g = function(...: number): typeof(HOLE) end",
+      "function t.f(...: number): typeof(HOLE) end", "local function g<T>(a: T, ...: T): (typeof(HOLE), ...typeof(HOLE)) end",
+      "repeat return HOLE until true", "repeat f() return 1, HOLE until c", "while c do return HOLE end", "function t.f(a) return HOLE end",
       "local function g() return HOLE end", "local v = (HOLE) :: typeof(HOLE)", "t[1], t[HOLE] = 1, 2"]
 
 SS = ["do HOLE end", "if c then HOLE end", "if c then else HOLE end", "if c then elseif d then HOLE end",
